@@ -1,5 +1,17 @@
-(* Property C11 — cloning yields an isomorphic copy with correctly rewritten references (statements only). *)
-From RbxVerif Require Import Base Dom Tree BaseFacts DomFacts.
+(* Property C11 — cloning yields an isomorphic copy with correctly rewritten references (statements only).
+   The specification Model/Tree.v a_clone states the property directly on rose forests: the copies are the
+   selected subtrees with every referent replaced by a fresh one (alloc_refs), appended as new parentless
+   trees (a_trees dst ++ copies: nothing else changes); every Ref property `o` of a copy becomes the copy of
+   `o` if `o` was cloned too, stays `o` if `o` is an instance of the destination, and becomes null otherwise
+   (clone_val).  The theorems say the concrete clone loops + rewrite_refs of dom.rs's model compute exactly
+   that, never panic and never run out of the stated fuel, for clone_within and for the external entry
+   points (one or several pairwise disjoint roots). *)
+From RbxVerif Require Import Base Dom Tree BaseFacts DomFacts TreeFacts Rep RepWF RefCloneAux RefClone RefCloneFinal.
+
+Theorem C11_clone_within_refines : refines_clone_within_final.
+Proof. exact clone_within_refines. Qed.
+Theorem C11_clone_external_refines : refines_clone_ext_final.
+Proof. exact clone_ext_refines. Qed.
 
 Theorem C11_insert_frame : forall d nu r i d' nu',
   inner_insert d nu r i = (d', nu') ->
